@@ -10,7 +10,10 @@ Ops3 == {"DecimateSimple", "Decimator", "ElimCoplanar", "ElimCoplanarFiltered", 
          "BlurFiltered", "BlurNeg1", "ARAPAbs", "ARAPUniform", "ARAPMixed"}
 Meshes2 == {"rect", "rectsub", "pixelL", "pixelHole", "circle", "two", "circle200", "speck"}
 Ops2 == {"Decimate", "DecimateTo3", "DecimateTo1", "EliminateColinear", "EliminateColinearTol", "Subdivide", "Smooth", "SmoothSq", "Blur05", "Blur0", "Invert", "SubdividePath"}
+\* a finely tessellated sphere (dihedral angles of a few degrees) through the simplifying operations only
+FineOps == {"ElimCoplanar", "ElimCoplanarFiltered", "DecimateSimple", "Decimator", "FlipDelaunay"}
 Cases == IF Dim = 3 THEN { [mesh |-> m, ops |-> o] : m \in Meshes3, o \in UNION { [1..n -> Ops3] : n \in 1..MaxLen } }
+                         \cup { [mesh |-> "icofine", ops |-> <<o>>] : o \in FineOps }
          ELSE { [mesh |-> m, ops |-> o] : m \in Meshes2, o \in UNION { [1..n -> Ops2] : n \in 1..MaxLen } }
 VARIABLES c, done
 Init == c \in Cases /\ done = FALSE
